@@ -17,7 +17,7 @@ F_GEN = "C01-retrieval-merge-generator"
 def listify(t):
     if t[0] == "shard":
         return t
-    return ("merge", listify(t[1]), [listify(o) for o in t[2]], t[3], t[4] if t[4] in ("list", "tuple") else "list")
+    return ("merge", listify(t[1]), [listify(o) for o in t[2]], t[3], t[4] if len(t) > 4 else "list")
 
 
 def tree_ops(t):
@@ -100,8 +100,8 @@ def retrieval_trees(ctx):
 
 
 def generator_probe(ctx):
-    """merge_state(metrics) iterates `metrics` once per state and per query: with a generator the
-    second pass is empty, topk and target get different lengths and compute() raises."""
+    """merge_state(<generator>) must equal merge_state(<list>) (before fix b5c0c50 the argument was
+    iterated once per state and per query: topk/target got different lengths and compute() raised)."""
     import torch
     s = ctx.stream("retrieval merge_state(generator)")
     for e in R.ENTRIES:
